@@ -10,7 +10,7 @@ ASSUMPTIONS = [
     "clang 14's front end, template-pattern AST and CFG construction (tools/usa-extract) represent the source faithfully",
     "receiver contract of this library: a set_value that exits with an exception is reported through set_error (not a double completion)",
     "the frozen tables under /verif/tables and the role tables inside the rule modules (each row: one named construct with a reason)",
-    "only necessary structural conditions of the property are decided; the clauses listed as declined in DESIGN.md section 5 are not",
+    "only necessary structural conditions of the property are decided; the clauses listed as declined in DESIGN.md section 4 are not",
 ]
 
 
